@@ -33,6 +33,8 @@ def run(tier, seed, t0):
             jobs.append(j("tsan-detached-%s" % be, "tsan", be, ["--seed", seed, "--detached", 1, "--threads", "2,6", "--rounds", 4, "--slowjobs", 0], tool="tsan", weight=8, timeout=3600))
             jobs.append(j("tsan-%s" % be, "tsan", be, ["--seed", seed, "--threads", "2,8,16", "--rounds", 3, "--slowjobs", 0], tool="tsan", weight=8, timeout=3600))
             jobs.append(j("helgrind-%s" % be, "vg", be, ["--seed", seed, "--threads", "4", "--rounds", 2, "--slowjobs", 0, "--n", 8, "--warm", 1, "--keygen", 1 if be == "spqlios-fma" else 0], tool="helgrind", weight=4, timeout=7200))
+        for be in vbuild.BACKENDS:
+            jobs.append(j("longrun-%s" % be, "optim", be, ["--seed", seed + 2, "--threads", "1", "--rounds", 1, "--keygen", 0, "--n", 8, "--longrun", 70000], weight=1, timeout=7200))
         jobs.append(j("cmp-debug-spqlios-fma", "debug", "spqlios-fma", ["--seed", seed, "--threads", "4,16", "--rounds", 1], weight=8, timeout=3600))
         jobs.append(j("cmp-debug-fftw", "debug", "fftw", ["--seed", seed, "--threads", "4,16", "--rounds", 1], weight=8, timeout=3600))
     else:
@@ -41,6 +43,8 @@ def run(tier, seed, t0):
         jobs.append(j("cmp-small-nayuki-portable", "optim", "nayuki-portable", ["--seed", seed + 1, "--threads", "3,8", "--rounds", 2, "--keygen", 0], weight=8))
         jobs.append(j("cmp-small-fftw", "optim", "fftw", ["--seed", seed, "--threads", "2,8,16", "--rounds", 2], weight=8))
         jobs.append(j("cmp-default128-spqlios-fma", "optim", "spqlios-fma", ["--seed", seed, "--lambda", 128, "--threads", "8", "--rounds", 1, "--slowjobs", 0], weight=8))
+        jobs.append(j("longrun-spqlios-fma", "optim", "spqlios-fma", ["--seed", seed + 2, "--threads", "1", "--rounds", 1, "--keygen", 0, "--n", 8, "--longrun", 70000], weight=1, timeout=3600))
+        jobs.append(j("longrun-nayuki-portable", "optim", "nayuki-portable", ["--seed", seed + 2, "--threads", "1", "--rounds", 1, "--keygen", 0, "--n", 8, "--longrun", 3000], weight=1, timeout=3600))
         for be in vbuild.BACKENDS:
             jobs.append(j("cmp-detached-%s" % be, "optim", be, ["--seed", seed, "--detached", 1, "--threads", "2,4,6,8,16", "--rounds", 6, "--slowjobs", 0], weight=8))
         jobs.append(j("tsan-nayuki-portable", "tsan", "nayuki-portable", ["--seed", seed, "--threads", "2,8", "--rounds", 2, "--slowjobs", 0], tool="tsan", weight=6))
